@@ -50,7 +50,10 @@ def run(ctx):
     for i, c in enumerate(rpipe.sample(real, 150 if quick else 1500, rnd, key=lambda c: (str(c["cfg"]["skip"]), c["cfg"]["n"]))):
         cc = dict(c)
         cc["cfg"] = dict(c["cfg"], pool=rnd.choice([True, False]))
-        big = (not quick) and i % 10 == 0
+        # big files: a real read() delivers less than a model buffer, so only scripts without literal partial reads
+        sc = c["cfg"]["script"]
+        no_literal = not [k for k, op in enumerate(sc) if op == "read" and "readall" not in sc[:k]]
+        big = (not quick) and i % 10 == 0 and no_literal
         cases.append(rpipe.mk_case(i, "real", cc, rnd, 1, format=fmts[i % len(fmts)],
                                    R=(rnd.choice([9000, 20000]) if big else rnd.choice([1, 30, 400])),
                                    mask=rpipe.mask_of(c["cfg"]), meta=rnd.choice([True, False]), single=rnd.choice([True, False])))
